@@ -262,22 +262,20 @@ func extractTermsAux(ctx *Context, x interface{}, terms StringSet, depth int) {
 
 func (s *IndexedState) Add(ctx *Context, id string, x Map) (string, error) {
 	Log(DEBUG, ctx, "IndexedState.Add", "state", s.Name, "factx", x, "id", id)
-	id, err := func() (string, error) {
-		// Unlock even if something below panics; otherwise the
-		// location is blocked for good.
-		s.slock(ctx, false)
-		defer s.sunlock(ctx, false)
-		id, err := s.add(ctx, id, x)
-		if err == nil {
-			// Whatever was cached for this id is stale now.
-			s.uncacheRule(id)
-		}
-		return id, err
-	}()
+	// Hold the lock until the store has the fact, too.  Otherwise a
+	// concurrent Add or Rem of the same id can run between the two
+	// updates and leave memory and storage disagreeing for good.
+	// (Unlock by defer: if something below panics, the location
+	// must not stay blocked.)
+	s.slock(ctx, false)
+	defer s.sunlock(ctx, false)
 
+	id, err := s.add(ctx, id, x)
 	if nil != err {
 		return "", err
 	}
+	// Whatever was cached for this id is stale now.
+	s.uncacheRule(id)
 
 	js, err := json.Marshal(&x)
 	if err != nil {
